@@ -7,6 +7,7 @@ import numpy as np
 from mc import alphabets as A
 from mc.harness import Result, Sub
 from mc.ref import c03x as X
+from mc.ref import c03y as Y
 from mc.ref.base import mk_snaps
 from mc.ref.grsq import ref_gr
 
@@ -20,10 +21,37 @@ ASSUMPTIONS = [
     "ppp may be given as ndarray, list or tuple; positions may be C- or Fortran-ordered float arrays",
     "call sequences: results must not depend on earlier calls or on other live gr objects (outputs are functions of the "
     "inputs); 'fresh state' = library modules re-imported in a forked child",
+    "frame classes: all frames share the edge lengths (asserted by the library) and the composition (N_a is read from frame 0); the tilt "
+    "factors, the assignment of the species to the ids and the positions may change from frame to frame, including frames without tilt",
+    "storage forms: positions are a real (n, d) ndarray - float64 or float32, any strides (the library's GSD reader returns a float32 "
+    "column slice, a float32 box and uint32 species = typeid + 1); species are an integer-valued ndarray of a signed / unsigned integer "
+    "or float dtype; ppp is an int / float ndarray, a list or a tuple of 0/1.  float32 positions: the stored float32 values are the "
+    "positions, a pair within 2e-5 of a bin edge may sit in either bin, placements with a minimum-image tie margin < 1e-5 are screened; "
+    "float32 box: every value compared with rtol 2e-6 (precision of the stored box)",
+    "coincident particles are a pair at distance 0, which belongs to the first bin",
+    "positions may lie any number of cell vectors outside the cell (unwrapped dump columns); the minimum image does not depend on it",
+    "g(r) does not depend on the unit of length: coordinates, cell and bin width multiplied by a power of two give the same table with r scaled",
 ]
 
-# slices whose unchanged-tree behaviour violates the property and is not yet repaired (none at present)
-KNOWN_OPEN = []
+# ============================================================================================================================
+# KNOWN_OPEN - slices that expose a GENUINE DEFECT of the unchanged tree that has not been repaired yet.  They are enumerated only
+# when their name is NOT listed here (or when VERIF_IGNORE_KNOWN_OPEN=1), so the registered check stays silent.  Remove the entry
+# once the repair is committed in /repo.
+#   "C03.forms.unsigned_types": gr.ternary / quarternary / quinary select the cross columns by `countsub = np.abs(TIJ[:, 0] - TIJ[:, 1])`.
+#       For an UNSIGNED species array the difference wraps around (1 - 3 = 4294967294 for uint32), so every pair whose neighbour has
+#       the lower species id drops out of gr13 / gr24 / gr35 ... and the column loses about half of its pairs (and the pair falls into
+#       no column at all).  Unsigned species are what the library's own GSD reader produces (`particle_type = typeid + 1`, typeid is
+#       uint32), so gr() of every GSD trajectory with 3 - 5 species is affected.
+#       Witness: box 8 x 9 x 10, particles (1,1,1) (2,1,1) (1,2.5,1) with species np.array([3, 2, 1], dtype=np.uint32), rdelta 0.4:
+#       gr13 is 0 in the bin centred at 1.4 that holds the 1-3 pair at r = 1.5 (72.5875585 with dtype int64), and only 2 of the 3 pairs
+#       appear in any partial column.
+#       Proposed repair (one line per body): build the pair table signed, `TIJ = np.c_[...].astype(np.int64)`.
+KNOWN_OPEN = []  # "C03.forms.unsigned_types" was repaired by /repo commit ec72eda (known_findings.json: fixed)
+# ============================================================================================================================
+
+
+def is_open(name):
+    return name in KNOWN_OPEN and not os.environ.get("VERIF_IGNORE_KNOWN_OPEN")
 
 
 # ---------------------------------------------------------------------------- geometry helpers
@@ -184,11 +212,16 @@ def run(case):
         sig["types_vary"] = True
     if case.get("H_frames"):
         sig["tilt_varies"] = True
+    if case["slice"] == "frameclass":
+        sig.update(tiltpat=case["tiltpat"], tclass=case["tclass"], pclass=case["pclass"])
+    if case["slice"] == "unwrapped":
+        sig.update(shifts=case["pattern"])
     snaps = mk_snaps(frames, Hsrc, tsrc)
     out = "gr_out.csv" if case["csv"] else None
     before = [s.positions.copy() for s in snaps.snapshots]
     res = gr(snaps, ppp=ppp, rdelta=w, outputfile=out).getresults()
-    ref = ref_gr(frames, Hsrc, tsrc, ppp, w)
+    # unwrapped placements: the table must be the one of the wrapped placement (the reference reduces with floor(s + 1/2) anyway)
+    ref = ref_gr([np.array(f) for f in case["frames_ref"]] if case.get("frames_ref") else frames, Hsrc, tsrc, ppp, w)
     populated = compare(R, res, ref, sig, case["types"], out)
     for s, b in zip(snaps.snapshots, before):
         if not np.array_equal(s.positions, b):
@@ -197,12 +230,12 @@ def run(case):
     if populated < 0:
         return R
     R.outcome({c: res[c].values for c in cols}, nd=7)
-    R.nontrivial = populated >= 2 * len(cols) or (populated >= 2 and len(types) <= 4)
+    R.nontrivial = populated >= 2 * len(cols) or (populated >= 2 and (len(types) <= 4 or case["slice"] in ("frameclass", "unwrapped")))
     R.elem = len(cols) * len(ref[1])
     return R
 
 
-def compare(R, res, ref, sig, types0, out=None):
+def compare(R, res, ref, sig, types0, out=None, rtol=1e-9, rscale=1.0):
     """every bin of every column against the reference intervals; the consequences stated in the property (sum rule, pair
     partition) on the implementation's own output; the CSV round trip.  Returns the number of populated (column, bin) cells,
     -1 when the table has the wrong shape."""
@@ -218,12 +251,12 @@ def compare(R, res, ref, sig, types0, out=None):
     if len(res) != len(r):
         R.fail(f"{len(res)} bins, expected int(Lmin/2/w)={len(r)}", sig=dict(sig, clause="bins"))
         return -1
-    if not np.allclose(res["r"].values, r, rtol=1e-12, atol=1e-12):
+    if not np.allclose(res["r"].values, r, rtol=1e-12, atol=1e-12 * rscale):
         R.fail("bin centres differ", sig=dict(sig, clause="bins"), exp=r[:5], obs=res["r"].values[:5])
     populated = 0
     for c in cols:
         v = res[c].values.astype(float)
-        tol = 1e-9 * np.maximum(1.0, np.abs(hi[c])) + 1e-11
+        tol = rtol * np.maximum(1.0, np.abs(hi[c])) + 1e-11
         bad = (v < lo[c] - tol) | (v > hi[c] + tol) | ~np.isfinite(v)
         populated += int((hi[c] > 0).sum())
         if bad.any():
@@ -242,9 +275,9 @@ def compare(R, res, ref, sig, types0, out=None):
             a, b = int(c[2]), int(c[3])
             tot += (1 if a == b else 2) * ca[a] * ca[b] * res[c].values
             cnt += res[c].values / norm[c]
-        if not np.allclose(tot, res["gr"].values, rtol=1e-9, atol=1e-11):
+        if not np.allclose(tot, res["gr"].values, rtol=rtol, atol=1e-11):
             R.fail("total != sum_ab c_a c_b g_ab", sig=dict(sig, clause="total_sum"))
-        if not np.allclose(cnt, res["gr"].values / norm["gr"], rtol=1e-9, atol=1e-9):
+        if not np.allclose(cnt, res["gr"].values / norm["gr"], rtol=rtol, atol=max(1e-9, 10 * rtol)):
             R.fail("partial pair counts do not add up to the total pair count (a pair in zero or two columns)", sig=dict(sig, clause="partition"))
     if out is not None:
         if not os.path.exists(out):
@@ -256,6 +289,206 @@ def compare(R, res, ref, sig, types0, out=None):
                 R.fail("CSV file differs from the returned frame beyond %.6f", sig=dict(sig, clause="csv"))
             os.remove(out)
     return populated
+
+
+# ---------------------------------------------------------- slice F: frames of different CLASS
+# Anything decided once from frame 0 and reused is only visible when frame 0 is of another class than a later frame: an orthogonal
+# first frame followed by sheared ones (a shear run started from the undeformed box) and the reverse; species stored in sorted
+# blocks in frame 0 only / in the later frames only; a first frame whose particles all sit in one small cluster.
+FC_TILTS = {"o-t": [0.0, 1.0], "t-o": [1.0, 0.0], "o-t-t": [0.0, 1.0, -1.0], "t-o-t": [1.0, 0.0, 0.5], "o-o-t": [0.0, 0.0, 1.0], "t-t-o": [1.0, -1.0, 0.0]}
+FC_TCLASS = ["const", "sorted_first", "sorted_later"]
+FC_N = 7
+
+
+def gen_frameclass(tier, seed):
+    quick = tier == "quick"
+    for d in (3, 2):
+        for cell in (("tri+", "trip") if quick else ("tri+", "trip", "tri-")):
+            H0 = cell_for(d, cell)
+            D = np.diag(np.diag(H0))
+            for tiltpat, fac in FC_TILTS.items():
+                F = len(fac)
+                Hs = [D + (H0 - D) * x for x in fac]
+                for K in (1, 2, 3, 4, 5):
+                    for tclass in (FC_TCLASS if K > 1 else FC_TCLASS[:1]):
+                        for mask in ([1] * d, [1, 0, 1][:d]) if quick else A.masks(d)[:-1]:
+                            for w in ((0.3,) if quick else (0.3, 0.27)):
+                                for pclass in ("generic", "cluster_first"):
+                                    if pclass == "cluster_first" and (tclass != "const" or 0 in mask):
+                                        continue
+                                    frames = []
+                                    for f in range(F):
+                                        pts = Y.generic_cell_points(seed, FC_N, Hs[f], tag=f"c03fc{d}{f}_")
+                                        if pclass == "cluster_first" and f == 0:  # every particle within a ball of radius ~1 around the cell centre
+                                            c = 0.5 * Hs[f].sum(axis=0)
+                                            pts = c + (pts - c) * 0.12
+                                        frames.append(pts.tolist())
+                                    yield {"slice": "frameclass", "d": d, "cell": cell, "H": H0.tolist(), "H_frames": [h.tolist() for h in Hs], "w": w,
+                                           "frames": frames, "types": Y.class_types(FC_N, K, F, tclass)[0], "types_frames": Y.class_types(FC_N, K, F, tclass),
+                                           "ppp": mask, "csv": False, "tiltpat": tiltpat, "tclass": tclass, "pclass": pclass}
+
+
+# ------------------------------------------------- slice H: unwrapped coordinates, several cells away
+# The dump reader passes `xu yu zu` columns through unfolded, so particles several box vectors away from the cell are ordinary
+# input; a fold that subtracts at most ONE cell vector is exact for |s| <= 1.5 and wrong beyond.
+UNWRAP_N = [0, 2, -3, 4]
+
+
+def unwrap_shifts(n, d, mask, pattern):
+    """integer cell-vector multiples per particle and axis from {0, +2, -3, +4}, zero on non-periodic axes"""
+    return [[UNWRAP_N[(i + 2 * a + pattern + (i * a) % 3) % 4] if mask[a] else 0 for a in range(d)] for i in range(n)]
+
+
+def gen_unwrapped(tier, seed):
+    quick = tier == "quick"
+    for d in (3, 2):
+        for cell in (("orth", "tri+", "tri-") if quick else ("orth", "orthp", "orthz", "tri+", "tri-", "trip")):
+            H = cell_for(d, cell)
+            for mask in A.masks(d)[:-1]:
+                for K in ((1, 2, 3, 5) if quick else (1, 2, 3, 4, 5, 6)):
+                    for F in (1, 2):
+                        for pattern in (0, 1):
+                            for w in ((0.3,) if quick else (0.3, 0.27)):
+                                n = 7
+                                wrapped = [Y.generic_cell_points(seed, n, H, tag=f"c03uw{d}{cell}{f}_") for f in range(F)]
+                                shifted = [wr + np.array(unwrap_shifts(n, d, mask, pattern + f), float) @ H for f, wr in enumerate(wrapped)]
+                                types = Y.class_types(n, K, F, "const")[0] if K <= 5 else [1, 2, 3, 4, 5, 6, 1]
+                                yield {"slice": "unwrapped", "d": d, "cell": cell, "H": H.tolist(), "w": w, "frames": [x.tolist() for x in shifted],
+                                       "frames_ref": [x.tolist() for x in wrapped], "types": types, "ppp": mask, "csv": False, "pattern": pattern}
+
+
+# ------------------------------------------------------------ slice I: absolute scale (dilated inputs)
+# g(r) is dimensionless: with coordinates, cell and bin width all multiplied by a power of two the table must be the same with r
+# scaled.  Guards with an ABSOLUTE tolerance (np.allclose(hmatrix, diag) = "orthogonal", np.isclose(distance, 0)) change their answer
+# for a cell of absolute size 1e-9 (SI metres) or 1e9; the tilted cells matter most.
+DIL_SCALES = {"2^-33": 2.0 ** -33, "2^+27": 2.0 ** 27}
+
+
+def gen_dilated(tier, seed):
+    quick = tier == "quick"
+    for d in (3, 2):
+        for cell in (("tri+", "tri-", "orthp") if quick else ("orth", "orthp", "tri+", "tri-", "trip")):
+            H = cell_for(d, cell)
+            D = np.diag(np.diag(H))
+            for K in ((1, 2, 3, 5) if quick else (1, 2, 3, 4, 5, 6)):
+                for F in (1, 2):
+                    for mask in ([1] * d, [1, 0, 1][:d]) if quick else A.masks(d)[:-1]:
+                        for sname in DIL_SCALES:
+                            Hs = [D + (H - D) * x for x in ([1.0, -0.5][:F])]
+                            frames = [Y.generic_cell_points(seed, 7, Hs[f], tag=f"c03dl{d}{cell}{f}_").tolist() for f in range(F)]
+                            types = Y.class_types(7, K, F, "const")[0] if K <= 5 else [1, 2, 3, 4, 5, 6, 1]
+                            yield {"slice": "dilated", "d": d, "cell": cell, "H_frames": [h.tolist() for h in Hs], "w": 0.3, "frames": frames,
+                                   "types": types, "ppp": mask, "scale": sname, "K": K}
+
+
+def run_dilated(case):
+    from PyMatterSim.static.gr import gr
+
+    R = Result()
+    sc = DIL_SCALES[case["scale"]]
+    d, w = case["d"], case["w"]
+    Hs = [np.array(h, float) for h in case["H_frames"]]
+    frames = [np.array(f, float) for f in case["frames"]]
+    types = np.array(case["types"])
+    ppp = np.array(case["ppp"])
+    sig = {"slice": "dilated", "K": len(set(case["types"])), "d": d, "cell": case["cell"], "F": len(frames), "masked": 0 in case["ppp"], "scale": case["scale"]}
+    # reference on the UNDILATED configuration, bin centres mapped through the scale
+    cols, r, lo, hi, norm = ref_gr(frames, np.array(Hs), types, ppp, w)[:5]
+    snaps = mk_snaps([f * sc for f in frames], np.array([h * sc for h in Hs]), types)
+    res = gr(snaps, ppp=ppp, rdelta=w * sc).getresults()
+    populated = compare(R, res, (cols, r * sc, lo, hi, norm), sig, case["types"], None, rscale=sc)
+    if populated < 0:
+        return R
+    R.outcome({c: res[c].values for c in cols}, nd=7)
+    R.nontrivial = populated >= 2
+    R.elem = len(cols) * len(r)
+    return R
+
+
+# ---------------------------------------------------------------- slice G: storage forms, exact values
+FORM_KEYS = ["pos", "tform", "pform", "box"]
+FORM_DOM = {"pos": Y.POS_FORMS, "tform": Y.TYPE_FORMS, "pform": Y.PPP_FORMS, "box": Y.BOX_FORMS}
+GSD_FORM = {"pos": "f32view", "tform": "uint32", "pform": "int64", "box": "f32"}  # what read_gsd hands to gr()
+
+
+def form_vectors(maxdev):
+    out = []
+    for combo in itertools.product(*(FORM_DOM[k] for k in FORM_KEYS)):
+        fv = dict(zip(FORM_KEYS, combo))
+        if sum(1 for k in FORM_KEYS if fv[k] != FORM_DOM[k][0]) <= maxdev:
+            out.append(fv)
+    if GSD_FORM not in out:
+        out.append(dict(GSD_FORM))
+    return out
+
+
+def gen_forms(tier, seed):
+    quick = tier == "quick"
+    fvs = form_vectors(1 if quick else 2)
+    for d in (3, 2):
+        for cell in (("orth", "tri-") if quick else ("orth", "orthp", "tri-", "tri+")):
+            for pset, F in (("dyadic", 1), ("mixed", 2)):
+                for K in ((1, 2, 3, 4, 5) if quick else (1, 2, 3, 4, 5, 6)):
+                    for mask in ([1] * d, [0, 1, 1][:d]) if quick else A.masks(d):
+                        for w in (0.27,):
+                            for fv in fvs:
+                                if fv["box"] == "f32" and cell.startswith("tri"):
+                                    continue  # the reader that stores a float32 box (GSD) only knows orthogonal cells
+                                if fv["tform"] == "uint32" and 3 <= K <= 5 and is_open("C03.forms.unsigned_types"):
+                                    continue
+                                yield dict({"slice": "forms", "d": d, "cell": cell, "pset": pset, "F": F, "K": K, "ppp": mask, "w": w, "seed": seed}, **fv)
+
+
+def forms_input(case):
+    d, F, K = case["d"], case["F"], case["K"]
+    H = cell_for(d, case["cell"])
+    frames = [np.array(Y.dyadic_points(d, np.diag(H)), float)]
+    if F == 2:  # a generic second frame (its values are not exact in float32), the species rotate along the ids
+        frames.append(Y.generic_cell_points(case["seed"], len(frames[0]), H, tag=f"c03fm{d}{case['cell']}_"))
+    n = len(frames[0])
+    t0 = [1 + (i % K) for i in range(n)]
+    ts = [t0[f:] + t0[:f] for f in range(F)]
+    return H, frames, ts
+
+
+def run_forms(case):
+    from PyMatterSim.static.gr import gr
+
+    R = Result()
+    d, F, K, w = case["d"], case["F"], case["K"], case["w"]
+    H, frames, ts = forms_input(case)
+    Hs = [H] * F
+    stored = [Y.store_positions(p, case["pos"]) for p in frames]
+    vals = [Y.stored_values(p) for p in stored]           # the positions the library is given (float32-rounded for the float32 forms)
+    tst = [Y.store_types(t, case["tform"]) for t in ts]
+    ppp = Y.store_ppp(case["ppp"], case["pform"])
+    single = case["pos"] in ("f32", "f32view") or case["box"] == "f32"
+    exact = case["pset"] == "dyadic" and case["box"] == "f64"  # every stored value and every difference is exact in float32
+    edge_tol = 2e-5 if (single and not exact) else 1e-9
+    rtol = 2e-6 if case["box"] == "f32" else 1e-9
+    if Y.tie_margin(vals, Hs, case["ppp"]) < (1e-5 if single else 1e-9):
+        return R.screen()
+    sig = {"slice": "forms", "K": K, "d": d, "cell": case["cell"], "F": F, "masked": 0 in case["ppp"],
+           "pos": case["pos"], "types": case["tform"], "pppform": case["pform"], "box": case["box"]}
+    ref = Y.ref_gr_tol(vals, Hs, ts, np.array(case["ppp"]), w, edge_tol)
+    snaps = Y.raw_snaps(stored, Hs, tst, case["box"])
+    p0 = [np.array(p, copy=True) for p in stored]
+    t0 = [np.array(t, copy=True) for t in tst]
+    res = gr(snaps, ppp=ppp, rdelta=w).getresults()
+    populated = compare(R, res, ref, sig, ts[0], None, rtol=rtol)
+    for s, pb, tb in zip(snaps.snapshots, p0, t0):
+        if not np.array_equal(s.positions, pb) or s.positions.dtype != pb.dtype or not np.array_equal(s.particle_type, tb):
+            R.fail("snapshot positions / species modified", sig=dict(sig, clause="input_modified"))
+    if not np.array_equal(np.asarray(ppp), np.asarray(case["ppp"])):
+        R.fail("caller's ppp modified", sig=dict(sig, clause="input_modified"))
+    if populated < 0:
+        return R
+    cols = ref[0]
+    R.outcome({c: res[c].values for c in cols}, nd=5)
+    R.nontrivial = populated >= 2
+    R.elem = len(cols) * len(ref[1])
+    R.notes = {"zero_pairs": ref[5]["zero_pairs"], "edge_pairs": ref[5]["edge_pairs"]}
+    return R
 
 
 # ------------------------------------------------------------------------------ slice D: scale
@@ -516,6 +749,35 @@ def subs(tier, seed):
                  "EVERY bin of EVERY column against a vectorised pair histogram (interval oracle at bin edges), sum rule, pair partition, CSV; "
                  "non-trivial = >= 2 populated bins and every column with >= 2-member species populated",
             bounds={"N": SCALE_N[tier], "K": [1, 5], "frames": [1, 3], "widths": SCALE_W}),
+        Sub("C03.frameclass", gen_frameclass, run,
+            rule="trajectories whose frames are of different CLASS: {2D,3D} x tilted cells {x shortest, y shortest" + ("" if tier == "quick" else ", negative tilts")
+                 + "} whose tilt factors are scaled per frame by " + str(list(FC_TILTS.values())) + " (first frame orthogonal and later ones sheared, the reverse, an "
+                 "orthogonal frame in the middle / at the end; edge lengths constant) x K = 1..5 x species per frame {same in all frames, sorted blocks in "
+                 "frame 0 and interleaved later, interleaved in frame 0 and sorted later} (same composition) x masks x {generic positions per "
+                 f"frame, first frame one tight cluster}}; {FC_N} generic particles per frame; every bin of every column against the double-loop reference "
+                 "(per-frame cell and species), sum rule, pair partition; non-trivial = >= 2 populated cells",
+            bounds={"tilt_patterns": len(FC_TILTS), "species_patterns": FC_TCLASS, "K": [1, 5], "N": FC_N}),
+        Sub("C03.unwrapped", gen_unwrapped, run,
+            rule="UNWRAPPED coordinates: seven generic particles per frame, particle i displaced by whole cell vectors n_i . H with n from {0, +2, -3, +4} "
+                 "(different per particle, axis and frame; zero on non-periodic axes; two shift patterns) x {2D,3D} x cells x every mask with a periodic "
+                 "axis x K x frames {1,2}; the table must be the one of the WRAPPED placement (double-loop reference, which reduces with floor(s + 1/2))",
+            bounds={"shifts": UNWRAP_N, "N": 7}),
+        Sub("C03.dilated", gen_dilated, run_dilated,
+            rule="ABSOLUTE SCALE: coordinates, cell (tilts included) and bin width multiplied by 2^-33 and by 2^+27 (exact in binary floating point): "
+                 "g(r) is dimensionless, so every column must equal the double-loop reference of the UNDILATED configuration with the bin centres "
+                 "scaled; {2D,3D} x cells " + ("{tri+, tri-, orthogonal with y shortest}" if tier == "quick" else "{orth, orthp, tri+, tri-, trip}")
+                 + " x K x frames {1, 2 (tilts x -0.5 in the second frame)} x masks; seven generic particles per frame",
+            bounds={"scales": list(DIL_SCALES), "N": 7}),
+        Sub("C03.forms", gen_forms, run_forms,
+            rule="STORAGE FORMS and exact values: positions {float64, float32, strided float64 view, float32 column slice} x species dtype "
+                 "{int64, int32, float64, uint32} x ppp {int64, int32, float64 array, list, tuple} x box {float64, float32 (orthogonal cells)}: "
+                 + ("every form vector with <= 1 deviation" if tier == "quick" else "every form vector with <= 2 deviations")
+                 + " from (float64, int64, int64, float64) plus the combination the GSD reader produces (float32 slice, uint32, float32 box); "
+                 "x {2D,3D} x cells x K = 1.." + ("5" if tier == "quick" else "6") + " x masks x point sets {seven DYADIC points: one at the origin, "
+                 "on the faces x = L_x, y = 0, z = L_z, two coincident (distance exactly 0); the same followed by a generic frame with rotated "
+                 "species}; reference evaluated on exactly the stored values; every bin of every column (interval oracle, distance 0 in bin 0 "
+                 "for sure), sum rule, pair partition, inputs unchanged; unsigned species with K = 3..5 are a KNOWN_OPEN defect",
+            bounds={"form_deviations": 1 if tier == "quick" else 2, "K": [1, 5 if tier == "quick" else 6], "known_open": list(KNOWN_OPEN)}),
         Sub("C03.sequence", gen_sequence, run_sequence,
             rule="explicit-state search over CALL SEQUENCES: all words of length <= " + ("2" if tier == "quick" else "3") + " over "
                  f"{len(SEQ_LETTERS)} letters (dimension, cell, width, composition, mask) that share some derived quantities (number of bins, "
